@@ -93,10 +93,10 @@ def failstop_part(ctx):
                    configs=[(0, 0, NONEC, NONEP), (0, 1, NONEC, NONEP), (1, 0, 0, 0)], budget=(6 if ctx.quick else None))
     # (the first program makes the timer thread's refresh checkpoint one of the enumerated calls while a sibling is still running)
     # (the sibling stays inside its user function far longer than the hang threshold: only the timer thread can wake the caller)
-    resume_while_running = {"nodes": [{"k": "par", "branches": [[{"k": "wait", "s": 1}, {"k": "step"}], [{"k": "step", "dur": 400.0}]]}, {"k": "step"}]}
+    resume_while_running = {"nodes": [{"k": "par", "branches": [[{"k": "wait", "s": 1}, {"k": "step"}], [{"k": "step", "dur": 30.0}]]}, {"k": "step"}]}
     progs = [CURATED_CONC[n] for n in ["m01_all_ok", "m04_waits_retries", "m02_first_successful", "m06_maxc1", "m15_timed_and_indef"]]
     ex = fault_enumeration(ctx, progs, [oracles.c06, oracles.c18], faults=["invalid_param", "throttle429"], seed_salt=707)
-    # the same enumeration for the program whose sibling is busy for 400 virtual seconds; "terminates promptly": the invocation in which
+    # the same enumeration for the program whose sibling is busy for 30 virtual seconds; "terminates promptly": the invocation in which
     # a call failed ends within 5 virtual seconds of the failure (the caller waits in the executor, not inside user code)
     from checks.durable_common import run_campaign, scen_of
     from harness.driver import Execution
@@ -113,7 +113,7 @@ def failstop_part(ctx):
                 ctx.violation("not-prompt-after-failure",
                               f"invocation {r.inv}: a checkpoint call failed at t={t_fail}, the invocation "
                               + (f"ended {t_end - t_fail:.1f} virtual seconds later" if t_end is not None else "never ended")
-                              + " (a branch was inside a 400 s user function; the caller was waiting in map/parallel)", scen_of(e))
+                              + " (a branch was inside a 30 s user function; the caller was waiting in map/parallel)", scen_of(e))
                 break
     ex = ex + slow
     from checks.conc_check import validate_exec_traces
